@@ -303,7 +303,14 @@ pub fn oracle(sc: &Scenario, out: &Outcome) -> Vec<Violation> {
             } else if k.prog != "badpw" {
                 let admitted = msgs.iter().any(|(_, m)| m.code == b'Z' || (m.code == b'R' && m.body.len() >= 4 && m.body[..4] == [0, 0, 0, 0]));
                 let refused = msgs.iter().any(|(_, m)| is_admin_err(m));
-                if admitted || (!refused && exit.map(|x| x.t > o.t).unwrap_or(true)) {
+                // there is something to refuse once the startup packet has been sent (at an instant before the exit)
+                let asked = log.iter().find(|e| e.seq > o.seq && matches!(&e.rec, Rec::CSend { c, .. } if *c == k.c)).map(|e| e.t_ms);
+                let asked_before_exit = match (asked, exit) {
+                    (Some(a), Some(x)) => a < x.t,
+                    (Some(_), None) => true,
+                    (None, _) => false,
+                };
+                if admitted || (!refused && asked_before_exit) {
                     vs.push(v(
                         "C17.late-client-admitted",
                         format!("C17.late-client-admitted:{}", ctx),
